@@ -2,6 +2,7 @@ package interp
 
 import (
 	"fmt"
+	"strings"
 	"go/constant"
 	"go/token"
 	"go/types"
@@ -180,7 +181,11 @@ func (ex *Exec) runFrame(fr *frame) {
 			if fr.back[next] > ex.res.UnwindMax {
 				ex.res.UnwindMax = fr.back[next]
 			}
-			if fr.back[next] > ex.unwind {
+			limit := ex.unwind
+			if fr.fn.Pkg != nil && strings.Contains(fr.fn.Pkg.Pkg.Path(), "/internal/vsys/") {
+				limit = 4096 // environment-model code: its loops are over fixed small tables
+			}
+			if fr.back[next] > limit {
 				panic(pathEnd{PathInconclusive, fmt.Sprintf("unwind: loop at %s exceeded bound %d", ex.posString(ex.curPos), ex.unwind)})
 			}
 		}
